@@ -17,7 +17,7 @@ End(open, iso) == IF iso = 1 THEN N ELSE HW(open)      \* the LSO is N whether o
 Ts(o) == T0 + 100 * o
 Start(spec, ls, open, iso) ==
   LET e == End(open, iso) IN
-  CASE spec.kind = "at"       -> Clamp(spec.x + spec.r, ls, e)
+  CASE spec.kind \in {"at", "atepoch"} -> Clamp(spec.x + spec.r, ls, e)      \* an epoch on the offset asks for truncation detection, it does not move the position
     [] spec.kind = "start"    -> Clamp(ls + spec.r, ls, e)
     [] spec.kind = "end"      -> Clamp(e + spec.r, ls, e)
     [] spec.kind = "milli"    -> LET S == {o \in ls..(e - 1) : Ts(o) >= spec.x} IN IF S = {} THEN e ELSE CHOOSE o \in S : \A p \in S : o <= p
@@ -26,9 +26,13 @@ Specs == {[kind |-> "at", x |-> x, r |-> r] : x \in {0, 1, 3, 5, 7, 8, 9, 10, 12
     \cup {[kind |-> "start", x |-> 0, r |-> r] : r \in {0, 1, 4, 5, 8, 9, 100, -3}}
     \cup {[kind |-> "end", x |-> 0, r |-> r] : r \in {0, -1, -3, -5, -8, -100, 3}}
     \cup {[kind |-> "milli", x |-> t, r |-> 0] : t \in {0, T0, T0 + 50, T0 + 300, T0 + 450, T0 + 700, T0 + 701, T0 + 900, T0 + 100000}}
+(* exact offsets that carry a leader epoch (WithEpoch, or what a group commit returns); only positions inside the log *)
+Epoched == {[kind |-> "atepoch", x |-> x, r |-> r] : x \in {3, 5, 7}, r \in {0, 1, 2, -2}}
 Committed == {[kind |-> "committed", x |-> c, r |-> 0] : c \in {0, 3, 5, 8}}
 Cases == {[spec |-> s, ls |-> ls, open |-> open, iso |-> iso, mode |-> m, start |-> Start(s, ls, open, iso)] :
              s \in Specs, ls \in {0, 3}, open \in BOOLEAN, iso \in {0, 1}, m \in {"direct", "group"}}
+     \cup {[spec |-> s, ls |-> ls, open |-> open, iso |-> iso, mode |-> "direct", start |-> Start(s, ls, open, iso)] :
+             s \in {c \in Epoched : c.x + c.r >= 3 /\ c.x + c.r <= N}, ls \in {0, 3}, open \in BOOLEAN, iso \in {0, 1}}
      \cup {[spec |-> s, ls |-> ls, open |-> open, iso |-> iso, mode |-> "group", start |-> Start(s, ls, open, iso)] :
              s \in {c \in Committed : c.x >= 3}, ls \in {0, 3}, open \in BOOLEAN, iso \in {0, 1}}
 ASSUME Start([kind |-> "at", x |-> 1, r |-> 0], 3, FALSE, 0) = 3        \* the documentation's own example: At(3) with start 8 -> 8
